@@ -135,6 +135,14 @@ def gen_cases(tier, seed):
         cases.append({'kind': 'reiterate', 'executor': ['thread', 'thread', 'async', 'process'][i % 4], 'first': ['break', 'close', 'worker-raises', 'complete'][(i // 4) % 4],
                       'n': rng.choice([6, 25]) if i % 4 != 3 else 8, 'concurrency': rng.choice([1, 2, 4]), 'return_x': rng.random() < 0.5,
                       'return_exceptions': rng.random() < 0.5, 'seed': rng.randrange(1 << 30)})
+    # (f) element values: None / falsy / empty at the first position (and elsewhere), every executor kind
+    for ex in ('thread', 'process', 'async'):
+        for k in range(10):
+            if tier == 'quick' and ex != 'thread' and k not in (0, 1, 2, 3, 5, 6):
+                continue
+            cases.append({'kind': 'values', 'executor': ex, 'first_value': k, 'n': 10, 'concurrency': 2, 'return_x': k % 2 == 1, 'as_list': k % 3 != 0, 'seed': k})
+        cases.append({'kind': 'values', 'executor': ex, 'first_value': 0, 'n': 1, 'concurrency': 2, 'return_x': False, 'as_list': True, 'seed': 0})
+        cases.append({'kind': 'values', 'executor': ex, 'first_value': 0, 'n': 4, 'all_same': True, 'concurrency': 1, 'return_x': True, 'as_list': False, 'seed': 1})
     return cases
 
 
@@ -340,6 +348,35 @@ def run_case(case):
         sigs.append(hash(('async', case['seed'])) & 0xFFFFFFFFFFFF)
         sample = {'kind': 'async', 'n': n, 'concurrency': case['concurrency'], 'outputs': len(out)}
 
+    elif kind == 'values':
+        # element VALUES an implementation might take for "nothing": None / falsy / empty, at the first, a middle and the last position
+        from vlib import targets
+
+        vals = [None, 0, '', False, 0.0, (), [], 'a', 1, b'']
+        k = case['first_value']
+        items = [vals[k]] + vals[k + 1:] + vals[:k] if case['n'] > 1 else [vals[k]]
+        if case.get('all_same'):
+            items = [vals[k]] * 4
+        ex = case['executor']
+        kw = dict(concurrency=case['concurrency'], return_x=case['return_x'])
+        if ex == 'async':
+            st = S.Stream(list(items) if case['as_list'] else (z for z in list(items))).parmap(targets.any_work_async, **kw)
+        else:
+            st = S.Stream(list(items) if case['as_list'] else (z for z in list(items))).parmap(targets.any_work, executor=ex, **kw)
+        exp = [((x, targets.any_work(x)) if case['return_x'] else targets.any_work(x)) for x in items]
+        ledger = gates.Ledger()
+        try:
+            out, term = watch.run_bounded(lambda: H.consume(iter(st), ledger), 90, 'parmap over falsy values')
+        except watch.Hang as h:
+            viol.append({'mech': f'parmap-{ex}/hang', 'msg': f'run over {items!r} did not finish', 'stacks': h.stacks})
+            return {'violations': viol, 'obs': obs, 'exit_after': True}
+        if norm_exc(out) != norm_exc(exp) or term != ('END',):
+            viol.append({'mech': f'parmap-{ex}/wrong-output', 'msg': f'parmap({ex}, return_x={case["return_x"]}) over {items!r}: got {len(out)} outputs {out!r}'[:400] + f' {term!r}, expected {len(exp)}: one per element, in order'})
+        obs['runs'] = 1
+        obs['value_runs'] = 1
+        obs['outputs_checked'] = len(out)
+        sigs.append(hash(('values', ex, k, case['return_x'], case.get('all_same'))) & 0xFFFFFFFFFFFF)
+        sample = {'kind': 'values', 'executor': ex, 'items': repr(items)[:80], 'outputs': len(out)}
     elif kind == 'reiterate':
         from vlib import targets
 
@@ -422,4 +459,4 @@ def summarize(results, cases):
     return {'dfs_trees': n_dfs, 'dfs_trees_exhausted': trees}
 
 
-RULE = RULE + '; results that are exception objects; submissions that raise; the same parmap Stream object iterated three times (first pass complete / break / close / worker-raises)'
+RULE = RULE + '; results that are exception objects; submissions that raise; the same parmap Stream object iterated three times (first pass complete / break / close / worker-raises); element values None / 0 / '' / False / () / [] at the first and other positions through thread, process and async parmappers'
